@@ -166,7 +166,20 @@ def _check_decay(eas, beta, tauBeta, tauLorentz, u, layout=None):
     require(alt2.tobytes() == alt.tobytes() and len2.tobytes() == length.tobytes(), "a second altDec call with the same arrays gives different results")
     # the same events in another memory representation (non-native byte order as astropy returns it for columns read
     # from a results file, 2-D with permuted axes, read-only, strided views): same decay points (to the last places: numpy picks its loops by stride)
-    if layout:
+    if layout == "float32":
+        # every input array in single precision (FITS 'E' columns): the decay points of the same numbers in double
+        # precision, to single-precision accuracy OF THE ALTITUDE (not of the Earth radius it is a small difference of)
+        a32 = [np.asarray(a, dtype=np.float32) for a in (beta, tauBeta, tauLorentz, u)]
+        with cut("EAS.altDec(float32 arrays)"):
+            alt32, len32 = [np.asarray(x, dtype=np.float64) for x in eas.altDec(*a32)]
+        with cut("EAS.altDec(the same numbers as float64)"):
+            alt64, len64 = [np.asarray(x, dtype=np.float64) for x in eas.altDec(*[a.astype(np.float64) for a in a32])]
+        for nm, g, w in (("length", len32, len64), ("altitude", alt32, alt64)):
+            fin = np.isfinite(w)
+            require(np.array_equal(fin, np.isfinite(g)), f"float32 inputs give a non-finite decay {nm} where the same numbers as float64 give a finite one")
+            bad = np.abs(g[fin] - w[fin]) > 1e-4 * np.abs(w[fin]) + 1e-30
+            require(not bad.any(), f"float32 input arrays give decay {nm} {g[fin][bad][:3].tolist()}, the same numbers as float64 arrays {w[fin][bad][:3].tolist()} (beyond single-precision accuracy of the {nm})")
+    elif layout:
         forms = [as_layout(a, layout) for a in (beta, tauBeta, tauLorentz, u)]
         if forms[0] is not None:
             with cut(f"EAS.altDec({layout} inputs of shape {forms[0][0].shape})"):
@@ -349,7 +362,7 @@ SUBCHECKS = [
     ),
     SubCheck(
         "decay",
-        st.fixed_dictionaries({"events": st.lists(st.tuples(gamma_st, beta_em, u_dec).map(list), min_size=1, max_size=48), "layout": st.sampled_from([None] + LAYOUTS), "preempt": st.one_of(st.just([]), st.lists(st.one_of(st.integers(0, 40), st.integers(0, 400)), min_size=1, max_size=3))}),
+        st.fixed_dictionaries({"events": st.lists(st.tuples(gamma_st, beta_em, u_dec).map(list), min_size=1, max_size=48), "layout": st.sampled_from([None] + LAYOUTS + ["float32", "float32"]), "preempt": st.one_of(st.just([]), st.lists(st.one_of(st.integers(0, 40), st.integers(0, 400)), min_size=1, max_size=3))}),
         body_decay,
         _nt,
         {"quick": 800, "thorough": 40000},
